@@ -117,6 +117,7 @@ def dispatchInfo (sigs : List Sig) (order : List Nat) (types : List Slot) : Stri
   C16 match (SLOT…) SIG                  does the signature accept the types
   C16 dispatch D (SLOT…)                 generated dispatcher #D, its recorded ordering
   C16 dispatcho D (ORDER…) (SLOT…)       same with an explicit ordering (indices)
+  C16 dispatchx (SIG…) (ORDER…) (SLOT…)  explicit signature table (throw-away registries)
   C16 deeptype VAL
   C16 ntab                               number of generated dispatchers
 -/
@@ -171,6 +172,10 @@ def handle (args : List Sexp) : String :=
       | some t => "ok " ++ showTy t
       | none => "ok none"
     | none => "err bad-args"
+  | [.atom "dispatchx", sg, o, ts] =>
+    match sg.asList?.bind (fun l => l.mapM parseSig), o.asNats?, parseSig ts with
+    | some sigs, some o, some ts => dispatchInfo sigs o ts
+    | _, _, _ => "err bad-args"
   | [.atom "hidden", d] =>
     match d.asNat? with
     | some d =>
